@@ -4,6 +4,7 @@ import (
 	"bytes"
 	"encoding/json"
 	"fmt"
+	"net/netip"
 	"os"
 	"runtime/debug"
 	"sort"
@@ -139,6 +140,67 @@ func drawColumn(t *rapid.T, vg *gen.ValGen, typ zed.Type, m int) column {
 	return c
 }
 
+var widePrims = []zed.Type{zed.TypeInt64, zed.TypeUint64, zed.TypeInt32, zed.TypeUint16, zed.TypeFloat64, zed.TypeFloat32,
+	zed.TypeString, zed.TypeBytes, zed.TypeIP, zed.TypeNet, zed.TypeTime, zed.TypeDuration, zed.TypeType}
+
+// synth returns the i-th of a family of pairwise distinct values of a wide primitive type.
+func synth(typ zed.Type, i int) zcode.Bytes {
+	switch typ {
+	case zed.TypeInt64, zed.TypeInt32, zed.TypeTime, zed.TypeDuration:
+		return zed.EncodeInt(int64(i) - 100)
+	case zed.TypeUint64, zed.TypeUint16:
+		return zed.EncodeUint(uint64(i))
+	case zed.TypeFloat64:
+		return zed.EncodeFloat64(float64(i) / 4)
+	case zed.TypeFloat32:
+		return zed.EncodeFloat32(float32(i) / 4)
+	case zed.TypeString:
+		return zcode.Bytes(fmt.Sprintf("w%03d", i))
+	case zed.TypeBytes:
+		return zcode.Bytes{byte(i), byte(i >> 8)}
+	case zed.TypeIP:
+		return zed.EncodeIP(netip.AddrFrom4([4]byte{10, 0, byte(i >> 8), byte(i)}))
+	case zed.TypeNet:
+		return zed.EncodeNet(netip.PrefixFrom(netip.AddrFrom4([4]byte{10, byte(i >> 8), byte(i), 0}), 24))
+	case zed.TypeType:
+		return zed.EncodeTypeValue(&zed.TypeEnum{Symbols: []string{fmt.Sprintf("s%d", i)}})
+	}
+	panic("harness: synth: not a wide primitive")
+}
+
+// drawWideColumn draws a column of a wide primitive type with exactly k
+// distinct non-null values (k <= m), every one of them used.
+func drawWideColumn(t *rapid.T, vg *gen.ValGen, typ zed.Type, m, k int) column {
+	c := column{typ: typ, nulls: drawNullPlan(t, m)}
+	if c.nulls.mode == 4 {
+		c.nulls.mode = 0
+	}
+	seen := map[string]bool{}
+	// a few generated (boundary-biased) values, the rest synthesized
+	for tries := 0; len(c.pool) < min(k, 24) && tries < 64; tries++ {
+		v := vg.Value(t, typ)
+		if !v.IsNull() && !seen[string(v.Bytes())] {
+			seen[string(v.Bytes())] = true
+			c.pool = append(c.pool, v.Bytes())
+		}
+	}
+	for i := 0; len(c.pool) < k; i++ {
+		if b := synth(typ, i); !seen[string(b)] {
+			seen[string(b)] = true
+			c.pool = append(c.pool, b)
+		}
+	}
+	c.pick = make([]int, m)
+	j := 0
+	for r := range c.pick {
+		if !c.nulls.isNull(r, m) {
+			c.pick[r] = j % len(c.pool)
+			j++
+		}
+	}
+	return c
+}
+
 func (c column) row(r, m int) zcode.Bytes {
 	if c.nulls.isNull(r, m) {
 		return nil
@@ -170,8 +232,27 @@ func drawSeq(t *rapid.T, o genOpts) gen.Seq {
 	if rapid.IntRange(0, 3).Draw(t, "dynamic?") > 0 {
 		ntypes = rapid.IntRange(2, 6).Draw(t, "ntypes")
 	}
+	// boundary mode: a long sequence whose first type has a wide primitive
+	// field "w" with exactly 255/256/257/300 distinct values
+	wideK := 0
+	var wideType zed.Type
+	if n >= 257 && rapid.IntRange(0, 9).Draw(t, "boundary?") < 7 {
+		wideK = rapid.SampledFrom([]int{255, 256, 256, 257, 257, 300}).Draw(t, "widek")
+		wideType = rapid.SampledFrom(widePrims).Draw(t, "widetype")
+		if rapid.Bool().Draw(t, "boundary-single") {
+			ntypes = 1
+		}
+	}
 	types := make([]zed.Type, ntypes)
 	for i := range types {
+		if i == 0 && wideK > 0 {
+			rec := tg.Record(t, depth-1).(*zed.TypeRecord)
+			fields := append(append([]zed.Field(nil), rec.Fields...), zed.NewField("w", wideType))
+			pos := rapid.IntRange(0, len(fields)-1).Draw(t, "widepos")
+			fields[pos], fields[len(fields)-1] = fields[len(fields)-1], fields[pos]
+			types[i] = zctx.MustLookupTypeRecord(fields)
+			continue
+		}
 		if rapid.IntRange(0, 9).Draw(t, "record?") < 7 {
 			types[i] = tg.Record(t, depth-1)
 			if rapid.IntRange(0, 7).Draw(t, "namedrec?") == 0 {
@@ -192,9 +273,20 @@ func drawSeq(t *rapid.T, o genOpts) gen.Seq {
 	for i := range which {
 		if rapid.IntRange(0, 2).Draw(t, "switch?") == 0 {
 			cur = rapid.IntRange(0, ntypes-1).Draw(t, "which")
+			if wideK > 0 && rapid.IntRange(0, 3).Draw(t, "favourwide") > 0 {
+				cur = 0
+			}
 		}
 		which[i] = cur
 		rows[cur]++
+	}
+	if wideK > 0 && rows[0] < wideK {
+		// not enough rows of the boundary type: give it all of them
+		for i := range which {
+			which[i] = 0
+		}
+		rows = make([]int, ntypes)
+		rows[0] = n
 	}
 	// ---- per type: record types get one shaped column per field plus a
 	// null plan for the record itself; other types a single column.
@@ -213,6 +305,10 @@ func drawSeq(t *rapid.T, o genOpts) gen.Seq {
 				sh.nulls = nullPlan{}
 			}
 			for _, f := range rec.Fields {
+				if i == 0 && wideK > 0 && f.Name == "w" {
+					sh.fields = append(sh.fields, drawWideColumn(t, vg, f.Type, m, min(wideK, m)))
+					continue
+				}
 				sh.fields = append(sh.fields, drawColumn(t, vg, f.Type, m))
 			}
 			shapes[i] = sh
@@ -1004,6 +1100,9 @@ func TestLiteral(t *testing.T) {
 		test := os.Getenv("VERIF_LITERAL_TEST")
 		if test == "" {
 			test = "TestVNGRoundTrip"
+		}
+		if e := os.Getenv("VERIF_LITERAL_SIG"); e != "" {
+			sig = e
 		}
 		rf := map[string]any{"test": test, "sig": sig, "case": json.RawMessage(raw)}
 		if e := os.Getenv("VERIF_LITERAL_EXPECT"); e != "" {
